@@ -258,10 +258,15 @@ func TestVerifC13Schedules(t *testing.T) {
 		}
 	}
 	rec.Exhaustive(fmt.Sprintf("every order of {release request i, start reload j} for k=1..%d requests of every kind combination × m=1..2 reloads (%d schedules)", maxK, len(scenarios)))
-	deadlocks := 0
+	deadlocks, failedReloads := 0, 0
 	for si, sc := range scenarios {
 		label := fmt.Sprintf("requests=%v reloads=%d order=%v", sc.reqKinds, sc.reloads, sc.order)
 		rec.CaseCheap(label)
+		if failedReloads >= 3 {
+			// each failed reload seen so far cost real time (a reload that polls and gives up); three witnesses are enough
+			rec.Note(fmt.Sprintf("stopped after %d failed reloads (of %d schedules enumerated so far)", failedReloads, si))
+			break
+		}
 		if deadlocks >= 40 {
 			// every deadlock leaks blocked goroutines and costs real time; 40 witnesses are enough
 			rec.Note(fmt.Sprintf("stopped after %d deadlocked schedules (of %d enumerated so far)", deadlocks, si))
@@ -382,6 +387,7 @@ func TestVerifC13Schedules(t *testing.T) {
 			}
 			for _, tk := range reloads {
 				if tk.err != nil {
+					failedReloads++
 					rec.Violation("reload-failed", "a reload of a valid subnet file failed", map[string]interface{}{"schedule": label, "err": tk.err.Error()})
 				}
 			}
